@@ -21,6 +21,27 @@ def bcd_val(b):
     return v
 
 
+def bcd_boundary(w):
+    """BCD digit strings around the largest value of a w-byte integer: the maximum and its neighbours, and every way of reaching
+    / passing it with a final F-padded digit (…d F) or a final digit pair"""
+    top = 256 ** w
+    out = set()
+    for d in range(-3, 120):
+        v = top - 1 + d
+        out.add(bcd_ref(v))
+        s = str(v)
+        if len(s) % 2:
+            out.add(bytes(int(s[i]) * 16 + (int(s[i + 1]) if i + 1 < len(s) else 15) for i in range(0, len(s), 2)))
+    for base in ((top - 1) // 10, (top - 1) // 10 - 1, (top - 1) // 10 + 1, (top - 1) // 100, (top - 1) // 100 + 1):
+        for last in range(16):
+            for pad in ("f", "0", "9", "ff"):
+                s = str(base) + "%x" % last + pad
+                if len(s) % 2:
+                    s = "0" + s
+                out.add(bytes.fromhex(s))
+    return sorted(out)
+
+
 def tag_representable(t):
     return (t < 256 and t not in (0x1f, 0xff)) or (t >> 8) in (0x1f, 0xff)
 
@@ -79,12 +100,10 @@ def run(ctx, out):
             if ln:
                 cases.add(bytes([0x12] * (ln - 1) + [0x3f]))
         # around the maximum of the type
-        for d in range(-3, 120):
-            v = top - 1 + d
-            cases.add(bcd_ref(v))
-            s = str(v)
-            if len(s) % 2:
-                cases.add(bytes(int(s[i]) * 16 + (int(s[i + 1]) if i + 1 < len(s) else 15) for i in range(0, len(s), 2)))
+        cases.update(bcd_boundary(w))
+        if ty == "u8":
+            cases.update(bytes([a]) for a in range(256))
+            cases.update(bytes([a, b]) for a in range(256) for b in range(256))
         for b in sorted(cases):
             v = bcd_val(b)
             add(f"enc.de bcd {ty} {C.hexs(b)}", f"ok {v} rem=-" if v < top else "err incomplete")
